@@ -47,19 +47,12 @@ func (b *ProcessLogBuffer) GetLogRange(offsetFromEnd, limit int) []string {
 		offsetFromEnd = len(b.buffer)
 	}
 
-	if limit < 1 {
-		limit = 0
+	// the window starts offsetFromEnd lines before the end and cannot reach beyond it
+	if limit < 1 || limit > offsetFromEnd {
+		limit = offsetFromEnd
 	}
-	if limit > len(b.buffer) {
-		limit = len(b.buffer)
-	}
-	if offsetFromEnd+limit > len(b.buffer) {
-		limit = len(b.buffer) - offsetFromEnd
-	}
-	if limit == 0 {
-		return b.buffer[len(b.buffer)-offsetFromEnd:]
-	}
-	return b.buffer[len(b.buffer)-offsetFromEnd : offsetFromEnd+limit]
+	start := len(b.buffer) - offsetFromEnd
+	return b.buffer[start : start+limit]
 }
 
 func (b *ProcessLogBuffer) GetLogLength() int {
